@@ -266,7 +266,7 @@ package syntax
 //@   trusted merge loop and rewrites not yet verified; contract used by the add* functions
 //@   requires c != nil && RangesValid(c.ranges) && CatsKnown(c.categories)
 //@   modifies c.ranges, c.negate, c.anything, c.categories, elems(SingleRange)
-//@   ensures[member] forall ch rune :: ValidRune(ch) ==> Member(*c, ch) == old(Member(*c, ch))
+//@   ensures[member] forall ch rune {mark(ch)} :: ValidRune(ch) ==> Member(*c, ch) == old(Member(*c, ch))
 //@   ensures[sorted] RangesSorted(c.ranges) && RangesValid(c.ranges) && CatsKnown(c.categories) && c.sub == old(c.sub)
 
 // The add* functions accumulate into the inner set and must leave the sense of the class (negate) alone: the parser
@@ -275,16 +275,18 @@ package syntax
 //@   props C16
 //@   requires c != nil && RangesValid(c.ranges) && CatsKnown(c.categories) && 0 <= chMin && chMin <= chMax
 //@   modifies c.ranges, c.negate, c.anything, c.categories, elems(SingleRange)
+//@   ensures[wf] RangesSorted(c.ranges) && RangesValid(c.ranges) && CatsKnown(c.categories) && c.sub == old(c.sub)
 //@   ensures[negate-kept] c.negate == old(c.negate)
-//@   ensures[union-pos] !old(c.negate) ==> forall ch rune :: ValidRune(ch) ==> Member(*c, ch) == ((old(BaseMember(*c, ch)) || (chMin <= ch && ch <= chMax)) && !(c.sub != nil && MemberP(c.sub, ch)))
-//@   ensures[union-neg] old(c.negate) ==> forall ch rune :: ValidRune(ch) ==> Member(*c, ch) == (old(BaseMember(*c, ch)) && !(chMin <= ch && ch <= chMax) && !(c.sub != nil && MemberP(c.sub, ch)))
+//@   ensures[union-pos] !old(c.negate) ==> forall ch rune {mark(ch)} :: ValidRune(ch) ==> Member(*c, ch) == ((old(BaseMember(*c, ch)) || (chMin <= ch && ch <= chMax)) && !(c.sub != nil && MemberP(c.sub, ch)))
+//@   ensures[union-neg] old(c.negate) ==> forall ch rune {mark(ch)} :: ValidRune(ch) ==> Member(*c, ch) == (old(BaseMember(*c, ch)) && !(chMin <= ch && ch <= chMax) && !(c.sub != nil && MemberP(c.sub, ch)))
 
 //@ func (c *CharSet) addRanges(ranges []SingleRange)
 //@   props C16
 //@   requires c != nil && RangesValid(c.ranges) && CatsKnown(c.categories) && RangesValid(ranges)
 //@   modifies c.ranges, c.negate, c.anything, c.categories, elems(SingleRange)
+//@   ensures[wf] !old(c.anything) ==> RangesSorted(c.ranges) && RangesValid(c.ranges) && CatsKnown(c.categories) && c.sub == old(c.sub)
 //@   ensures[negate-kept] c.negate == old(c.negate)
-//@   ensures[union-pos] !old(c.negate) && !old(c.anything) ==> forall ch rune :: ValidRune(ch) ==> Member(*c, ch) == ((old(BaseMember(*c, ch)) || old(InRanges(ranges, ch))) && !(c.sub != nil && MemberP(c.sub, ch)))
+//@   ensures[union-pos] !old(c.negate) && !old(c.anything) ==> forall ch rune {mark(ch)} :: ValidRune(ch) ==> Member(*c, ch) == ((old(BaseMember(*c, ch)) || old(InRanges(ranges, ch))) && !(c.sub != nil && MemberP(c.sub, ch)))
 //@   ensures[anything] old(c.anything) ==> c.ranges == old(c.ranges) && c.negate == old(c.negate)
 
 //@ func (c *CharSet) makeAnything()
@@ -399,3 +401,12 @@ package syntax
 //@     invariant 0 <= i && i <= len(n.Children) && n.T == NtConcatenate && 0 <= sum
 //@     invariant forall k int {PrefSpan(n, i, k)} :: PrefSpan(n, i, k) ==> k <= sum
 //@     decreases len(n.Children) - i
+
+// C04: first-character set of a single (possibly negated) literal
+//@ func newRegexFc(ch rune, not bool, nullable bool, caseInsensitive bool) (r regexFc)
+//@   props C04 C16
+//@   requires 0 <= ch && ch <= 1114111
+//@   modifies elems(SingleRange)
+//@   ensures r.nullable == nullable && r.caseInsensitive == caseInsensitive && r.cc.sub == nil
+//@   ensures[one]    !not ==> forall c rune {mark(c)} :: ValidRune(c) ==> Member(r.cc, c) == (c == ch)
+//@   ensures[notone] not ==> forall c rune {mark(c)} :: ValidRune(c) ==> Member(r.cc, c) == (c != ch)
